@@ -1025,6 +1025,10 @@ def get_attr(self, st, base, attr, node, default=KeyError):
                 if m.kind == "classmethod":
                     return [(st, "val", BoundMeth(ClassVal(o.cls), m))]
                 return [(st, "val", BoundMeth(base, m))]
+            for anc in o.cls.mro():
+                ck = "@c:%s.%s" % (getattr(anc, "name", anc), attr)
+                if ck in st.ghost:
+                    return [(st, "val", st.ghost[ck])]       # a class attribute written at run time
             lc = o.cls.lookup_const(attr)
             if lc is not None:
                 try:
